@@ -96,6 +96,7 @@ type Runner struct {
 	Samples  []interface{}
 	Workers  int
 	ReplayOverride func(hr *HarnessResult) string
+	AfterInject    func()
 	Filter   *regexp.Regexp
 	Stubs    []string
 }
@@ -621,6 +622,9 @@ func (r *Runner) modeB(pkgRel string, filter string, native bool, bounds Bounds,
 	}
 	rt.WriteString("\t})\n}\n")
 	os.WriteFile(filepath.Join(r.S.Repo, pkgRel, "zz_vx_replay_test.go"), []byte(rt.String()), 0o644)
+	if r.AfterInject != nil {
+		r.AfterInject()
+	}
 	r.stage("harnesses injected into " + pkgRel)
 	ld, err := loadProgram(r.S.Repo, []string{"./" + pkgRel}, goEnv())
 	if err != nil {
